@@ -14,6 +14,7 @@ import z3
 from . import core, loader
 
 VERIF = os.path.dirname(os.path.dirname(os.path.abspath(__file__)))
+EVDIR = os.environ.get('SYMX_EVIDENCE_DIR') or os.path.join(VERIF, 'evidence')
 REPO = os.environ.get('SYMX_REPO', '/repo')
 REAL_PY = '/venv/bin/python'
 Fr = fractions.Fraction
@@ -123,6 +124,10 @@ class Task(object):
     def decide(self, ctx, path, name, bad, site=None, inputs=None, what='', bound='', timeout_ms=None, extra=()):
         """discharge one obligation on one path; `inputs(model)` turns a model into replay inputs"""
         r, m, dt = core.check(ctx, path, bad, timeout_ms=timeout_ms, extra=extra)
+        if r == 'unknown':
+            # one retry with a much larger budget before the obligation is reported inconclusive
+            r, m, dt2 = core.check(ctx, path, bad, timeout_ms=8 * (timeout_ms or ctx.timeout_ms), extra=extra)
+            dt += dt2
         self.ob(name, r, dt, bound)
         if r == 'sat':
             inp = inputs(m) if inputs is not None else model_dict(m)
@@ -199,7 +204,7 @@ def F(x):
 
 
 def write_replay(pid, idx, site, inputs, body):
-    d = os.path.join(VERIF, 'evidence', 'replay')
+    d = os.path.join(EVDIR, 'replay')
     os.makedirs(d, exist_ok=True)
     fn = os.path.join(d, '%s-%d.py' % (pid, idx))
     with open(fn, 'w') as f:
@@ -398,6 +403,7 @@ class Check(object):
             idx += 1
             fn = write_replay(self.pid, idx, c['site'], c['inputs'], body)
             rc, out = run_replay(fn)
+            self.log('candidate %s %s (%s): replay rc=%s' % (c['site'], c['inputs'], c['what'][:120], rc))
             if rc == 1 and 'REPRODUCED' in out:
                 k = match_known(self.pid, c, known)
                 if k is not None:
@@ -470,8 +476,8 @@ class Check(object):
             },
         }
         ev['coverage'].update(self.extra)
-        os.makedirs(os.path.join(VERIF, 'evidence'), exist_ok=True)
-        with open(os.path.join(VERIF, 'evidence', self.pid + '.json'), 'w') as f:
+        os.makedirs(EVDIR, exist_ok=True)
+        with open(os.path.join(EVDIR, self.pid + '.json'), 'w') as f:
             json.dump(ev, f, indent=1, default=str)
         for ln in lines:
             print(ln, flush=True)
